@@ -35,3 +35,9 @@ import Anysystem.Proofs.R6Demo
 #print axioms Anysystem.R7Demo.fateH_fresh
 #print axioms Anysystem.R7Demo.fate_step
 #print axioms Anysystem.R7Demo.fates_covered_demo
+#print axioms Anysystem.D17.D17_witness
+#print axioms Anysystem.D17.D17_uncovered
+#print axioms Anysystem.D17.D17_uncovered3
+#print axioms Anysystem.D17.D17_not_fresh
+#print axioms Anysystem.D17.D17_blocked
+#print axioms Anysystem.D17.D17_only_freshness_missing
